@@ -35,7 +35,10 @@ def make_probe(spec, obs):
 
     class Probe(Strategy):
         def hyperparameters(self):
-            return [{'name': 'every', 'type': int, 'min': 3, 'max': 40, 'default': 7}]
+            # two declared; an explicitly passed dict names only `every` (a PARTIAL hyperparameters argument: the
+            # session must neither complete the caller's dict in place nor fail, as long as `share` is only .get())
+            return [{'name': 'every', 'type': int, 'min': 3, 'max': 40, 'default': 7},
+                    {'name': 'share', 'type': float, 'min': 0.1, 'max': 0.3, 'default': 0.2}]
 
         def before(self):
             if 'type' not in obs:
@@ -65,7 +68,7 @@ def make_probe(spec, obs):
             if abort and abort[0] == 'reject' and self.index >= abort[1]:
                 self.buy = 1e9, self.price
                 return
-            qty = round(self.balance * 0.2 / self.price, 3)
+            qty = round(self.balance * (self.hp.get('share', 0.2) if self.hp else 0.2) / self.price, 3)
             obs['submitted'] = True
             self.vars['just_submitted'] = self.index
             self.buy = qty, self.price
